@@ -293,6 +293,10 @@ func (sc *serverConn) checkFrameWithStream(fr *FrameHeader) error {
 	}
 
 	switch fr.Type() {
+	case FrameSettings:
+		return NewGoAwayError(ProtocolError, "settings is carrying a stream id")
+	case FrameGoAway:
+		return NewGoAwayError(ProtocolError, "goaway is carrying a stream id")
 	case FramePing:
 		return NewGoAwayError(ProtocolError, "ping is carrying a stream id")
 	case FramePushPromise:
